@@ -216,7 +216,35 @@ def defective(rng, kind, tag, toml=False):
 
 
 # ---------------------------------------------------------------- cases
-def gen_env(rng, etc_xdg_clear):
+REPEAT_DIRS = ['{0}/c1:{0}/c2:{0}/c1', '{0}/c1:{0}/c1:{0}/c2', '{0}/c2:{0}/c1:{0}/c2',
+               '{0}/c2:{0}/c2:{0}/c1', '{0}/c1:{0}/c2:{0}/c2:{0}/c1', '{0}/c1:{0}/c3:{0}/c1:{0}/c2',
+               '{0}/c2:{0}/c1:{0}/c1', '{0}/c1:{0}/c2:{0}/c1:{0}/c2']
+
+
+def gen_env(rng, etc_xdg_clear, repeat=False):
+    env = gen_env_plain(rng, etc_xdg_clear)
+    if repeat:
+        # the same config path consulted more than once: a directory listed twice in
+        # $XDG_CONFIG_DIRS, and / or $XDG_CONFIG_HOME equal to one of the common directories
+        r = rng.random()
+        if r < 0.5:
+            env['XDG_CONFIG_DIRS'] = rng.choice(REPEAT_DIRS).format(SB)
+            if rng.random() < 0.7:
+                env['XDG_CONFIG_HOME'] = f'{SB}/u'
+        elif r < 0.85:
+            env['XDG_CONFIG_DIRS'] = rng.choice([f'{SB}/c1:{SB}/c2', f'{SB}/c2:{SB}/c1',
+                                                 f'{SB}/c1:{SB}/c3:{SB}/c2'])
+            env['XDG_CONFIG_HOME'] = rng.choice([f'{SB}/c1', f'{SB}/c2'])
+        else:
+            env['XDG_CONFIG_DIRS'] = rng.choice(REPEAT_DIRS).format(SB)
+            env['XDG_CONFIG_HOME'] = rng.choice([f'{SB}/c1', f'{SB}/c2'])
+        if rng.random() < 0.85:
+            env.pop('PYPYR_CONFIG_GLOBAL', None)
+            env.pop('PYPYR_SKIP_INIT', None)
+    return env
+
+
+def gen_env_plain(rng, etc_xdg_clear):
     env = {}
     r = rng.random()
     if r < 0.55:
@@ -309,9 +337,46 @@ def pyproject_doc(rng, inner, shape):
     return d(pairs)
 
 
-def make_case(rng, subset, etc_xdg_clear, force_defect=None):
-    env = gen_env(rng, etc_xdg_clear)
+def add_conflicts(rng, payload, tag):
+    """Make a mapping payload set the contested scalar / vars key / shortcuts key, each to a
+    value that names the file."""
+    pairs = [list(kv) for kv in payload['d']]
+
+    def put(key, value):
+        for kv in pairs:
+            if kv[0] == key:
+                kv[1] = value
+                return
+        pairs.insert(rng.randrange(len(pairs) + 1), [key, value])
+
+    def put_in(prop, key, value):
+        for kv in pairs:
+            if kv[0] == prop and isinstance(kv[1], dict) and 'd' in kv[1]:
+                inner = [x for x in kv[1]['d'] if x[0] != key]
+                inner.insert(rng.randrange(len(inner) + 1), [key, value])
+                kv[1] = {'d': inner}
+                return
+        put(prop, d([(key, value)]))
+    if rng.random() < 0.8:
+        put('default_group', f'group-{tag}')
+    if rng.random() < 0.5:
+        put('pipelines_subdir', f'sub-{tag}')
+    if rng.random() < 0.7:
+        put_in('vars', 'a', f'a-{tag}')
+    if rng.random() < 0.6:
+        put_in('shortcuts', 's1', d([('pipeline_name', f'p-{tag}')]))
+    return {'d': pairs}
+
+
+def make_case(rng, subset, etc_xdg_clear, force_defect=None, repeat=False):
+    env = gen_env(rng, etc_xdg_clear, repeat)
     present = [l for l in LOCS if l in subset]
+    if repeat:
+        for l in ('c1', 'c2'):
+            if l not in present and rng.random() < 0.9:
+                present.append(l)
+        if 'u' not in present and rng.random() < 0.6:
+            present.append('u')
     glob = env.get('PYPYR_CONFIG_GLOBAL')
     if glob and rng.random() < 0.8:
         present.append('g')
@@ -320,7 +385,7 @@ def make_case(rng, subset, etc_xdg_clear, force_defect=None):
     defect = None
     defect_loc = None
     r = rng.random()
-    if force_defect or (present and r < 0.30):
+    if force_defect or (present and r < (0.10 if repeat else 0.30)):
         defect = force_defect or rng.choice(DEFECTS)
         if present:
             defect_loc = rng.choice(present)
@@ -335,6 +400,8 @@ def make_case(rng, subset, etc_xdg_clear, force_defect=None):
                 payload = d([])
         else:
             payload = mapping_payload(rng, loc, toml)
+            if repeat and loc in ('c1', 'c2', 'c3', 'u'):
+                payload = add_conflicts(rng, payload, loc)
         path = loc_path(env, loc)
         if toml:
             shape = 'pypyr'
@@ -359,8 +426,11 @@ def make_case(rng, subset, etc_xdg_clear, force_defect=None):
         if f['path'] not in seen:
             seen.add(f['path'])
             uniq.append(f)
-    return {'env': env, 'files': uniq, 'subset': [l for l in LOCS if l in subset],
+    case = {'env': env, 'files': uniq, 'subset': [l for l in LOCS if l in subset],
             'defect': defect if defect_loc else None, 'fresh': rng.random() < 0.06}
+    if repeat:
+        case['repeat'] = True
+    return case
 
 
 def generate(rng, n, tier):
@@ -369,5 +439,6 @@ def generate(rng, n, tier):
     for i in range(n):
         mask = i % 32
         subset = [l for j, l in enumerate(LOCS) if mask >> j & 1]
-        cases.append(make_case(rng, subset, etc_xdg_clear))
+        # every 5th pass over the 32 subsets consults some config path more than once
+        cases.append(make_case(rng, subset, etc_xdg_clear, repeat=(i // 32) % 5 == 4))
     return cases
